@@ -653,6 +653,20 @@ theorem runLoop_sound (hp : MethodsPure c) (hi : SnapInj) (rc : RunCfg) (entries
       cases o1 with
       | some out => exact ⟨rfl, he2⟩
       | none =>
+        simp only
+        obtain ⟨hp0, hl0⟩ := poll_sound rc he2
+        generalize poll rc ls3 = p0 at hp0 hl0
+        obtain ⟨b0, ls3⟩ := p0
+        generalize specPoll rc ss3 = q0 at hp0 hl0
+        obtain ⟨b0', ss3⟩ := q0
+        simp only at hp0 hl0
+        subst hp0
+        simp only
+        have he2 := hl0
+        cases b0 with
+        | true => simp only [if_true]; exact ⟨trivial, he2⟩
+        | false =>
+        simp only [Bool.false_eq_true, if_false]
         cases acc1 with
         | nil => exact ⟨rfl, he2⟩
         | cons r0 rs =>
@@ -665,11 +679,16 @@ theorem runLoop_sound (hp : MethodsPure c) (hi : SnapInj) (rc : RunCfg) (entries
               rcases hmem _ h1 with h2 | h2
               · cases h2
               · exact orderEntries_mem _ _ _ (by rw [hord]; exact h2)
-            have hl4 := lrel_emit he2 (TEv.exec (cycle + 1) (pickRunner r0 rs).rule.name)
+            have hl4' := lrel_emit he2 (TEv.exec (cycle + 1) (pickRunner r0 rs).rule.name)
+            have hl4 : LRel c (ls3.emit (TEv.exec (cycle + 1) (pickRunner r0 rs).rule.name))
+                { ss3.emit (TEv.exec (cycle + 1) (pickRunner r0 rs).rule.name) with
+                  fired := (cycle + 1, pickRunner r0 rs, ss3.vis) :: ss3.fired } :=
+              ⟨hl4'.vis, hl4'.polls, hl4'.passes, hl4'.trace, hl4'.coh⟩
             obtain ⟨hp5, hl5⟩ := poll_sound rc hl4
             generalize poll rc (ls3.emit (TEv.exec (cycle + 1) (pickRunner r0 rs).rule.name)) = p5 at hp5 hl5
             obtain ⟨b5, ls5⟩ := p5
-            generalize specPoll rc (ss3.emit (TEv.exec (cycle + 1) (pickRunner r0 rs).rule.name)) = q5 at hp5 hl5
+            generalize specPoll rc { ss3.emit (TEv.exec (cycle + 1) (pickRunner r0 rs).rule.name) with
+                  fired := (cycle + 1, pickRunner r0 rs, ss3.vis) :: ss3.fired } = q5 at hp5 hl5
             obtain ⟨b5', ss5⟩ := q5
             simp only at hp5 hl5
             subst hp5
